@@ -129,6 +129,11 @@ def shapes() -> list[tuple[str, list]]:
     out.append(("private_labels", [A("prog"), [m2], [gen(0, [call("l"), call("l"), [A("ctrl"), A("end")]])]]))
     # call inside blocks
     out.append(("call_in_switch", [A("prog"), [m], [gen(0, [[A("switch"), [A("var"), P_c("$V")], [[A("case"), [A("int"), P_i(1)], [call("r", P_i(1)), [A("ctrl"), A("break")]]], [A("default"), [call("r", P_i(2))]]]], op("z"), [A("ctrl"), A("end")]])]]))
+    # control statements as the statement of a with-block inside macros: private labels, return leaves the expansion
+    m3 = mac("wr", [], [[A("with"), "actor", P_i(1), [A("ctrl"), A("return")]], op("never")])
+    out.append(("with_return_in_macro", [A("prog"), [m3], [gen(0, [call("wr"), op("z"), call("wr"), [A("ctrl"), A("end")]])]]))
+    m4 = mac("wj", [], [[A("with"), "object", P_i(2), [A("jump"), "skip"]], op("skipped"), [A("label"), "skip"], op("after")])
+    out.append(("with_jump_in_macro", [A("prog"), [m4], [gen(0, [call("wj"), call("wj"), [A("ctrl"), A("end")]])]]))
     return out
 
 
